@@ -7,7 +7,7 @@ from lib import core
 from lib.core import cz, czl
 from harness import common, sess, smppref
 
-THEOREMS = ['C02_accepted_response_stores_original', 'C02_receipt_plain', 'C02_receipt_unsegmented', 'C02_receipt_unknown', 'C02_segmented_receipts', 'C02_concurrent_receipts', 'C02_concurrent_nonvacuous', 'C02_failing_receipt_wins', 'C02_nonvacuous']
+THEOREMS = ['C02_accepted_response_stores_original', 'C02_receipt_plain', 'C02_receipt_unsegmented', 'C02_any_error_code', 'C02_receipt_unknown', 'C02_segmented_receipts', 'C02_concurrent_receipts', 'C02_concurrent_nonvacuous', 'C02_failing_receipt_wins', 'C02_nonvacuous']
 IMPORTS = ['AV.Model.Base', 'AV.Model.PyDict', 'AV.Model.Limiter', 'AV.Model.Correlator', 'AV.Model.Seq', 'AV.Model.Handlers']
 
 
@@ -46,7 +46,7 @@ def gen_history(rng, thorough):
                 all_mids.append(m_id)
                 chain.append(('resp', nu(), 0x80000004, sq, 0, m_id))
                 if rng.random() < 0.9:
-                    err = rng.choice([0, 0, 0, 1, 7, 69, 255, 999])
+                    err = rng.choice([0, 0, 0, 1, 7, 69, 255, 999, 65531, 65532, 65533, 65534, 65535, 70000, 10 ** 12])
                     chain.append(('rcpt', nu(), m_id, err, rng.choice(['text', 'tlv', 'both'])))
                     if rng.random() < 0.15:
                         chain.append(('rcpt', nu(), m_id, rng.choice([0, 5]), 'text'))    # duplicate
